@@ -66,7 +66,7 @@ func (c *chk) seen(section, input string) {
 		if len(input) > 120 {
 			input = input[:120] + "..."
 		}
-		c.samples = append(c.samples, map[string]string{"section": section, "input": input})
+		c.samples = append(c.samples, map[string]string{"section": section, "input": input, "nth_input_of_section": fmt.Sprint(c.nseen[section])})
 	}
 	c.mu.Unlock()
 }
@@ -98,9 +98,21 @@ func (c *chk) bad2(section, class, key, input string, rank int64, what string) {
 	c.mu.Lock()
 	defer c.mu.Unlock()
 	c.nfail[class]++
+	f := failure{rank: rank, input: key, detail: replayRec{Section: section, Input: input, Class: class, What: what}}
 	l := c.fails[class]
-	if len(l) < 4096 {
-		c.fails[class] = append(l, failure{rank: rank, input: key, detail: replayRec{Section: section, Input: input, Class: class, What: what}})
+	if len(l) < 32 {
+		c.fails[class] = append(l, f)
+		return
+	}
+	// keep the 32 simplest seen so far
+	worst := 0
+	for i := range l {
+		if l[i].rank > l[worst].rank || l[i].rank == l[worst].rank && l[i].input > l[worst].input {
+			worst = i
+		}
+	}
+	if rank < l[worst].rank || rank == l[worst].rank && key < l[worst].input {
+		l[worst] = f
 	}
 }
 
@@ -156,7 +168,7 @@ var sections []*section
 func register(s *section) { sections = append(sections, s) }
 
 func TestCheck(t *testing.T) {
-	r := vk.Start("C18", "model_checking", 80*time.Second, 8*time.Minute)
+	r := vk.Start("C18", "model_checking", 70*time.Second, 8*time.Minute)
 	c := newChk(r)
 	if r.Replay != "" {
 		c.replay = true
@@ -175,9 +187,9 @@ func TestCheck(t *testing.T) {
 				continue
 			}
 			for i := 0; i < 5; i++ {
-				before := len(c.fails[rec.Class])
+				before := c.nfail[rec.Class]
 				c.guard(s.name, rec.Input, func() { s.one(c, rec.Input) })
-				fmt.Printf("replay %d: section=%s input=%q class=%s fails=%v\n", i+1, s.name, rec.Input, rec.Class, len(c.fails[rec.Class]) > before)
+				fmt.Printf("replay %d: section=%s input=%q class=%s fails=%v\n", i+1, s.name, rec.Input, rec.Class, c.nfail[rec.Class] > before)
 				n++
 			}
 		}
@@ -209,7 +221,7 @@ func TestCheck(t *testing.T) {
 		calls += st.Calls.Get()
 		per[s.name] = map[string]int64{"inputs": st.Inputs.Get(), "nontrivial": st.Nontrivial.Get(), "oracle_evaluations": st.Evals.Get(), "calls_into_repo": st.Calls.Get()}
 		rules = append(rules, s.name+": "+s.rule)
-		if st.Inputs.Get() == 0 {
+		if st.Inputs.Get() == 0 && !r.IsCapped() {
 			r.Violation("harness:section-did-not-run:"+s.name, s.name)
 		}
 	}
@@ -220,9 +232,16 @@ func TestCheck(t *testing.T) {
 	cov["distinct_nontrivial"] = int(nontriv)
 	cov["rule"] = "input-exhaustive per section; a state is one distinct input of one section, a transition one call into the packages under test; " + strings.Join(rules, " | ")
 	cov["sections"] = per
-	sort.SliceStable(c.samples, func(i, j int) bool {
-		return c.samples[i].(map[string]string)["section"] < c.samples[j].(map[string]string)["section"]
-	})
+	prio := map[string]int{"sign-verify": 1, "fixedn-values": 2, "bigint-int": 3, "base58-bytes": 4, "script-multisig": 5, "nep2": 6}
+	rk := func(i int) string {
+		sec := c.samples[i].(map[string]string)["section"]
+		p := prio[sec]
+		if p == 0 {
+			p = 9
+		}
+		return c.samples[i].(map[string]string)["nth_input_of_section"] + fmt.Sprint(p) + sec
+	}
+	sort.SliceStable(c.samples, func(i, j int) bool { return rk(i) < rk(j) })
 	cov["samples"] = c.samples
 	if len(nfail) > 0 {
 		cov["failed_inputs_per_class"] = nfail
